@@ -231,11 +231,8 @@ def run(ctx):
         return
     ok = all(sp.simplify(sp.powsimp(sp.expand_log(sp.log(cl[i] / want[i]), force=True), force=True)) == 0 for i in (1, 2)) and sp.simplify(cl[0] - V) == 0
     ctx.check("R28.2", key, bool(ok), f"classic a_1 = {sp.simplify(cl[1])}; a_0 = {cl[0]}", ini)
-    fl = [st for st in walk_no_nested(ini.node) if isinstance(st, ast.Assign) and src(st.targets[0]) == "self._fluc"]
-    opn = [src(st.targets[0]) for st in walk_no_nested(ini.node) if isinstance(st, ast.Assign) and isinstance(st.value, ast.BinOp) and isinstance(st.value.op, ast.Add)
-           and "vol0" in src(st.value) and "vol1" in src(st.value)]
-    ctx.check("R28.2", f"{ini.key}::fluctuation amplitude = sqrt(integral of amplitude^2)", len(fl) == 1 and bool(opn) and
-              src(fl[0].value).replace(" ", "") == f"{opn[-1]}.power(2).integrate().sqrt()", src(fl[0].value) if fl else None, ini)
+    # (the predicted fluctuation is decided on terms by R28.10; an earlier obligation here compared it with the text the pinned
+    #  tree happened to contain, which was the defect D48 itself)
 
 
 def _classic_matern(sp, ini, ps, k, scl, ctf, slp, V):
@@ -700,3 +697,179 @@ _run_c28d = run
 def run(ctx):  # noqa: F811
     _run_c28d(ctx)
     r28_6(ctx, ctx.model)
+
+
+# ---------------------------------------------------------------------------------------------------------------- R28.9
+def r28_9(ctx, m):
+    R = "R28.9"
+    ctx.rule(R, "nifty.re make_grid: every harmonic grid takes its mode lengths, its relative log mode lengths / log volumes and its "
+                "mode multiplicities from ONE mode distributor result - `mode_lengths=` is the very array handed to _log_modes(...), "
+                "as returned by get_*_mode_distributor (the Matern amplitude reads mode_lengths, the non-parametric one the log "
+                "quantities: a transformed copy in one of them makes the two models, and the classic implementation, disagree)", floor=2)
+    fi = m.func("nifty.re.correlated_field", "make_grid", required=False)
+    if fi is None:
+        ctx.und(R, "nifty.re.correlated_field::make_grid", "function missing", "nifty/re/correlated_field.py")
+        return
+    ctx.saw_func(fi)
+    n = 0
+    for c in walk_no_nested(fi.node):
+        if not (isinstance(c, ast.Call) and any(k.arg == "mode_lengths" for k in c.keywords)):
+            continue
+        n += 1
+        kw = {k.arg: k.value for k in c.keywords}
+        ml = kw["mode_lengths"]
+        key = f"{fi.key}::{call_name(c)}: mode_lengths is the array the log quantities are computed from"
+        # the enclosing branch body
+        blk = None
+        for b in ast.walk(fi.node):
+            for fld in ("body", "orelse"):
+                body = getattr(b, fld, None)
+                if isinstance(body, list) and any(not isinstance(st, (ast.If, ast.For, ast.While, ast.With, ast.Try)) and any(z is c for z in ast.walk(st)) for st in body):
+                    blk = body
+        logs = [z for st in (blk or []) for z in ast.walk(st) if isinstance(z, ast.Call) and call_name(z) == "_log_modes" and z.args]
+        if not isinstance(ml, ast.Name):
+            ctx.bad(R, key, f"`mode_lengths={short(ml, 60)}` is a transformed array" + (f", while _log_modes({src(logs[0].args[0])}) uses the original" if logs else ""), fi, c)
+            continue
+        if not logs:
+            ctx.und(R, key, "no _log_modes call in the branch", fi, c)
+            continue
+        same = all(src(z.args[0]) == ml.id for z in logs)
+        # the name is bound exactly once in the branch, by unpacking a distributor call
+        binds = [st for st in (blk or []) for z in ast.walk(st) if isinstance(z, ast.Name) and isinstance(z.ctx, ast.Store) and z.id == ml.id]
+        from_dist = len(binds) == 1 and isinstance(binds[0], ast.Assign) and isinstance(binds[0].value, ast.Call) and "mode_distributor" in src(binds[0].value.func)
+        ctx.check(R, key, True if (same and from_dist) else (False if not same else None),
+                  f"mode_lengths={ml.id}; _log_modes({', '.join(src(z.args[0]) for z in logs)}); bound by `{short(binds[0], 60) if binds else None}`", fi, c)
+    if not n:
+        ctx.und(R, f"{fi.key}::harmonic grids", "no grid construction with mode_lengths found", fi)
+
+
+_run_c28x = run
+
+
+def run(ctx):  # noqa: F811
+    _run_c28x(ctx)
+    r28_9(ctx, ctx.model)
+
+
+# ---------------------------------------------------------------------------------------------------------------- R28.10
+def r28_10(ctx, m):
+    R = "R28.10"
+    ctx.rule(R, "classic Matern amplitude: the predicted fluctuation is the standard deviation of the realisations about their mean - "
+                "read on a two-bin power space (zero mode with multiplicity 1, one bin with multiplicity r, harmonic pixel volume 1/V): "
+                "with amplitude (V, sqrt(V) m1) the field variance is r m1^2 / V, and `_fluc` evaluated as a term (power, integrate = "
+                "sum of dvol * value, sqrt, scale) must equal its square root - no zero-mode entry, volume normalised (sympy as "
+                "normaliser)", floor=1)
+    from .c03 import _load_sympy
+    sp = _load_sympy()
+    C = m.cls("nifty.cl.library.correlated_fields", "_AmplitudeMatern", required=False)
+    if sp is None or C is None:
+        ctx.und(R, "nifty/cl/library/correlated_fields.py::_AmplitudeMatern", "sympy or class missing", "nifty/cl/library/correlated_fields.py")
+        return
+    init = C.methods["__init__"]
+    ctx.saw_func(init)
+    V, r, m0, m1 = sp.Symbol("V", positive=True), sp.Symbol("r", positive=True), sp.Symbol("m0", positive=True), sp.Symbol("m1", positive=True)
+    tv = init.params()[-1] if "totvol" not in init.params() else "totvol"
+    env = {}
+
+    class NU(Exception):
+        pass
+
+    def ev(e):
+        if isinstance(e, ast.Constant) and isinstance(e.value, (int, float)):
+            return sp.nsimplify(e.value)
+        if isinstance(e, ast.Name):
+            if e.id == tv:
+                return V
+            if e.id in env:
+                return env[e.id]
+            raise NU(e.id)
+        if isinstance(e, ast.UnaryOp) and isinstance(e.op, ast.USub):
+            v = ev(e.operand)
+            return tuple(-x for x in v) if isinstance(v, tuple) else -v
+        if isinstance(e, ast.BinOp):
+            a, b = ev(e.left), ev(e.right)
+            f = {ast.Add: lambda x, y: x + y, ast.Sub: lambda x, y: x - y, ast.Mult: lambda x, y: x * y, ast.Div: lambda x, y: x / y,
+                 ast.Pow: lambda x, y: x ** y}.get(type(e.op))
+            if f is None:
+                raise NU(src(e))
+            if isinstance(a, tuple) and isinstance(b, tuple):
+                return tuple(f(x, y) for x, y in zip(a, b))
+            if isinstance(a, tuple):
+                return tuple(f(x, b) for x in a)
+            if isinstance(b, tuple):
+                return tuple(f(a, y) for y in b)
+            return f(a, b)
+        if isinstance(e, ast.Call) and isinstance(e.func, ast.Attribute):
+            meth = e.func.attr
+            if meth in ("power", "ptw") and e.args:
+                v = ev(e.func.value)
+                p = ev(e.args[0])
+                return tuple(x ** p for x in v) if isinstance(v, tuple) else v ** p
+            if meth == "integrate" and not e.args:
+                v = ev(e.func.value)
+                if not isinstance(v, tuple):
+                    raise NU("integrate of a scalar")
+                return v[0] * (1 / V) + v[1] * (r / V)
+            if meth == "sum" and not e.args:
+                v = ev(e.func.value)
+                return v[0] + v[1]
+            if meth == "sqrt" and not e.args:
+                v = ev(e.func.value)
+                return tuple(sp.sqrt(x) for x in v) if isinstance(v, tuple) else sp.sqrt(v)
+            if meth == "scale" and len(e.args) == 1:
+                v, c = ev(e.func.value), ev(e.args[0])
+                return tuple(x * c for x in v) if isinstance(v, tuple) else v * c
+            if src(e.func) in ("np.sqrt", "numpy.sqrt") and len(e.args) == 1:
+                return sp.sqrt(ev(e.args[0]))
+        raise NU(src(e)[:60])
+    key = f"{init.key}::_fluc^2 = r m1^2 / V on the two-bin model"
+    verdict, det = None, "assignment to self._fluc not found"
+    try:
+        for st in init.node.body:
+            if isinstance(st, ast.Assign) and len(st.targets) == 1:
+                t = src(st.targets[0])
+                if t == "self._fluc":
+                    val = ev(st.value)
+                    want = sp.sqrt(r * m1 ** 2 / V)
+                    verdict = sp.simplify(val - want) == 0
+                    det = f"_fluc = {sp.simplify(val)}; standard deviation of the field = {want}"
+                    break
+                if isinstance(st.targets[0], ast.Name):
+                    nm = st.targets[0].id
+                    v = st.value
+                    if nm == "op" and isinstance(v, ast.Call) and isinstance(v.func, ast.Attribute) and v.func.attr == "exp":
+                        env["op"] = (m0, m1)
+                    elif nm in ("vol0", "vol1") and isinstance(v, ast.Call) and call_name(v) == "makeField":
+                        pass
+                    elif nm == "op" or nm.startswith("amp"):
+                        try:
+                            env[nm] = ev(v)
+                        except NU:
+                            pass
+                elif isinstance(st.targets[0], ast.Tuple) and [src(x) for x in st.targets[0].elts] == ["vol0", "vol1"]:
+                    env["vol0"], env["vol1"] = (sp.Integer(0), sp.Integer(0)), (sp.Integer(0), sp.Integer(0))
+            # index stores: vol0[0] = totvol ; vol1[1:] = totvol**0.5
+            if isinstance(st, ast.Assign) and isinstance(st.targets[0], ast.Subscript) and isinstance(st.targets[0].value, ast.Name) \
+                    and st.targets[0].value.id in ("vol0", "vol1"):
+                nm = st.targets[0].value.id
+                sl = src(st.targets[0].slice)
+                cur = list(env.get(nm, (sp.Integer(0), sp.Integer(0))))
+                val = ev(st.value)
+                if sl == "0":
+                    cur[0] = val
+                elif sl == "1:":
+                    cur[1] = val
+                else:
+                    raise NU(f"index {sl}")
+                env[nm] = tuple(cur)
+    except NU as ex:
+        verdict, det = None, f"term not modelled: {ex}"
+    ctx.check(R, key, verdict, det, init)
+
+
+_run_c28y = run
+
+
+def run(ctx):  # noqa: F811
+    _run_c28y(ctx)
+    r28_10(ctx, ctx.model)
